@@ -34,7 +34,9 @@ import shutil
 import tempfile
 
 import supybot.conf as conf
+import supybot.ircdb as ircdb
 import supybot.utils as utils
+import supybot.ircutils as ircutils
 from supybot.commands import *
 import supybot.schedule as schedule
 import supybot.callbacks as callbacks
@@ -138,6 +140,13 @@ class Scheduler(callbacks.Plugin):
         world.flushers.remove(self._flush)
         self.__parent.die()
 
+    def _isIgnored(self, msg):
+        """Returns whether the user who scheduled an event is ignored now.
+        Direct commands of ignored users are dropped before they are
+        tokenized; their scheduled commands must not run either."""
+        return ircutils.isUserHostmask(msg.prefix) and \
+               ircdb.checkIgnored(msg.prefix, msg.channel)
+
     def _makeCommandFunction(self, network, msg, command, remove=True):
         """Makes a function suitable for scheduling from command."""
         def f():
@@ -147,6 +156,10 @@ class Scheduler(callbacks.Plugin):
                 channel=msg.channel, network=irc.network)
             if remove:
                 del self.events[str(f.eventId)]
+            if self._isIgnored(msg):
+                self.log.info('Not running %q: %s is ignored.',
+                              command, msg.prefix)
+                return
             self.Proxy(irc, msg, tokens)
         return f
 
@@ -155,8 +168,10 @@ class Scheduler(callbacks.Plugin):
         def f():
             # If the network isn't available, pick any other one
             irc = world.getIrc(network) or world.ircs[0]
-            replyIrc = callbacks.ReplyIrcProxy(irc, msg)
-            replyIrc.reply(_('Reminder: %s') % text, msg=msg, prefixNick=True)
+            if not self._isIgnored(msg):
+                replyIrc = callbacks.ReplyIrcProxy(irc, msg)
+                replyIrc.reply(_('Reminder: %s') % text, msg=msg,
+                               prefixNick=True)
             del self.events[str(f.eventId)]
         return f
 
